@@ -101,8 +101,9 @@ def run_impl(inp, work):
         shutil.copy(base, path)
         log = os.path.join(work, 'log%d.txt' % r)
         os.environ[procs.LOG_ENV] = log
+        tr = procs.Tracer()
         with h5py.File(path, 'r+') as f:
-            with quiet():
+            with quiet(), tr.installed():
                 p = RowProc(f['G/main'], parms={'a': 1}, cores=1)
                 p._max_pos_per_read = inp['batch']
                 p.mpi_rank, p.mpi_size = r, inp['size']
@@ -111,7 +112,16 @@ def run_impl(inp, work):
             results = [float(x) for x in grp['Results'][()]]
             main = f['G/main'][()]
         marks = [i for i in range(n) if status[i] == 1 and mask[i] == 0]
+        # positions of the status / results datasets this rank WROTE to (whatever value it wrote)
+        touched = {'completed_positions': set(), 'Results': set()}
+        for ev in tr.events:
+            if ev.get('e') == 'write':
+                nm = ev['dset'].split('/')[-1]
+                if nm in touched:
+                    touched[nm].update(procs.expand_key(ev['key'], n))
         ranks.append({'batches': p.batches, 'marks': marks, 'calls': procs.read_log(log, m),
+                      'status_written': sorted(touched['completed_positions']),
+                      'results_written': sorted(touched['Results']),
                       'results_ok': all(results[i] == procs.map_value(main[i]) for i in marks),
                       'untouched': all(results[i] == -1.0 for i in range(n) if i not in marks)})
         os.remove(path)
@@ -143,6 +153,12 @@ def oracle(inp, obs):
             fails.append('batch-limit: rank %d has a batch larger than %d' % (i, inp['batch']))
         if not r['results_ok'] or not r['untouched']:
             fails.append('results: rank %d wrote a wrong result or touched a position outside its range' % i)
+        # a rank must WRITE (status and results) only inside its own range: other ranks write there concurrently
+        for key, what in (('status_written', 'status'), ('results_written', 'result')):
+            outside = [q for q in r.get(key, []) if q not in flat]
+            if outside:
+                fails.append('own-range-writes: rank %d wrote %s entries of positions outside its range (%s ...)'
+                             % (i, what, outside[:6]))
     return fails
 
 
